@@ -453,7 +453,9 @@ func (un *Unit) mapHeaps(m types.Type) (string, string) {
 func (un *Unit) heapTyping(name string, h Term, next Term) {
 	t, ok := un.heapType[name]
 	if !ok {
-		return
+		if t, ok = un.eng.heapTypeHint[name]; !ok {
+			return
+		}
 	}
 	r := Term{"r!ht", SInt}
 	i := Term{"i!ht", SInt}
